@@ -5,7 +5,7 @@ Encoding of an argument by declared type (all integers on one line):
   abstract interface → see ABS_PARSERS of the specs | object → the arguments of its (translated) constructor
 Answer: `OK <canonical value>` / `ERR <PythonExceptionName>` (canonical: py2lean_selftest.canon)."""
 from py2lean_types import (TInt, TBool, TStr, TNone, TRange, TErased, TList, TOpt, TTuple, TDict, TObj, TAbs, TExc,
-                           TUnion, TVar, resolve, proj)
+                           TUnion, TVar, THet, resolve, proj)
 
 
 def ty_json(t):
@@ -38,6 +38,8 @@ def ty_json(t):
         return {"k": "abs", "name": t.name}
     if isinstance(t, TUnion):
         return {"k": "union", "a": ty_json(t.a), "b": ty_json(t.b)}
+    if isinstance(t, THet):
+        return {"k": "het", "e": ty_json(t.elem), "tails": [ty_json(x) for x in t.tails]}
     raise ValueError(t)
 
 
@@ -66,6 +68,8 @@ def parser(t, reg, specs):
         for p in reversed(ps[:-1]):
             out = "(GenUtil.pair {} {})".format(p, out)
         return out
+    if isinstance(t, THet):
+        return parser(TTuple([TList(t.elem)] + t.tails), reg, specs)
     if isinstance(t, TAbs):
         p = getattr(specs, "ABS_PARSERS", {}).get(t.name)
         if p is None:
@@ -96,6 +100,8 @@ def shower(t, x, reg):
         if n == 0:
             return '"()"'
         return '("(" ++ ' + ' ++ "," ++ '.join(shower(e, proj(x, i, n), reg) for i, e in enumerate(t.elems)) + ' ++ ")")'
+    if isinstance(t, THet):
+        return shower(TTuple([TList(t.elem)] + t.tails), x, reg)
     if isinstance(t, TDict):
         return "(GenUtil.showList (fun z => {} ++ \":\" ++ {}) {})".format(shower(t.k, "z.1", reg), shower(t.v, "z.2", reg), x)
     if isinstance(t, TUnion):
